@@ -12,7 +12,7 @@ REQUIRED = ["depth 1 == max tent (complete PL comparison)", "every depth == k-th
             "hom_deg selects the diagram", "one trailing infinite bar ignored"]
 RULE = ("diagrams of 1-12 bars of positive length on small integer / half-integer grids (all coincidences exact in binary): "
         "nested, overlapping, disjoint, touching (d_i=b_j), equal births, equal deaths, repeated bars x2..x4, sweep collisions, "
-        "random input order; plus random float bars; scales 1e-3..1e3; the same configurations far from the origin (offset 1e5-1e7 bar lengths) and at absolute scale 1e-9; hom_deg 0..2 with decoy diagrams. Both sides are "
+        "random input order; plus random float bars; scales 1e-3..1e3; the same configurations far from the origin (offset 1e5-1e7 bar lengths) and at absolute scale 1e-9, and shifted so that coordinates are negative or exactly 0; hom_deg 0..2 with decoy diagrams. Both sides are "
         "piecewise linear, so they are compared on the union of their breakpoints (+ midpoints + outside points): a complete "
         "equality test per input and per depth. non-trivial = >=3 bars with at least one overlapping pair; distinct = digest "
         "of the sorted bars")
@@ -40,6 +40,8 @@ def setup(ctx):
 
 def gen_bars(rng):
     n = int(rng.choice([1, 2, 3, 3, 4, 4, 5, 6, 7, 8, 10, 12]))
+    if rng.random() < 0.006:
+        n = int(rng.choice([40, 127, 128, 129, 200]))        # a few large diagrams (sizes around 128)
     style = str(rng.choice(["grid", "grid", "half", "nested", "touching", "eqbirth", "eqdeath", "repeat", "collision",
                             "float", "disjoint"]))
     if style == "grid":
@@ -156,6 +158,12 @@ def far_or_tiny(rng, bars, style):
         return bars + float(rng.choice([1e5, 1e6, 1e7])) * unit, style + "+far"
     if r < 0.16:
         return bars * float(rng.choice([1e-9, 1e-7])) / max(float(np.max(np.abs(bars))), 1e-300), style + "+tiny"
+    if r < 0.26:
+        # coordinates of either sign: shift so that some birth or death is exactly 0, or everything is negative
+        pivot = float(rng.choice(bars.ravel()))
+        if rng.random() < 0.3:
+            pivot = float(np.max(bars)) + float(rng.integers(0, 3)) * float(np.min(bars[:, 1] - bars[:, 0]))
+        return bars - pivot, style + "+signed"
     return bars, style
 
 
